@@ -3,16 +3,17 @@ Model of the dial path of lib/attack.go: `DNSCaching` (323-405), `firstOfEachIPF
 (408-432), `ConnectTo` (281-315), and of `resolver.address()` (internal/resolver/resolver.go:76).
 
 * The DNS cache entry is a heap array handed out BY REFERENCE (`dnscache.Resolver.load`
-  returns `entry.rrs` itself): the in-place `rng.Shuffle` and the in-place compaction
-  `each = ips[:0]; each = append(each, ips[i])` of `firstOfEachIPFamily` rewrite the cached
-  array (DESIGN §8 #12).  The model keeps the array as a `List` that every dial maps to its
-  successor contents.
+  returns `entry.rrs` itself).  Since fix da2a0f6 (DESIGN §8 #12) the dial function copies it
+  (`ips = append([]string(nil), ips...)`) before the in-place `rng.Shuffle` and the in-place
+  compaction `each = ips[:0]; each = append(each, ips[i])` of `firstOfEachIPFamily`, so both
+  rewrite only the private copy.  The model keeps the cached array as a `List` that every
+  dial maps to its successor contents (now: itself).
 * `net.ParseIP` / `To4` are a parameter `fam : α → Family`.
 * `rng.Shuffle` is Fisher–Yates over an explicit list of choices (the random source is a
-  parameter).
-* `ConnectTo`'s round-robin is `cm.n = (cm.n + 1) % len(cm.addrs); addr = cm.addrs[cm.n]`,
-  a NON-atomic read-modify-write followed by a second read: sequentially a rotation, under
-  interleaving a lost update (`rrStep`).
+  parameter; since fix 42475d9 the call is one critical section of `rngmu`).
+* `ConnectTo`'s round-robin is `n := atomic.AddUint64(&cm.n, 1); addr = cm.addrs[n%uint64(len(cm.addrs))]`
+  (fix 42475d9): ONE atomic step on the shared counter, then a computation on the local `n`
+  (`ctStep`, all interleavings).
 * The custom resolver rotates with `atomic.AddUint64`: one atomic step per call.
 -/
 import Vegeta.Go.Proto
@@ -92,12 +93,13 @@ def shuffle (js : List Nat) (l : List α) : List α := shuffleLoop (l.length - 1
 /-! ### one dial through the DNS-caching dial function -/
 
 /-- One call of the `DNSCaching` dial function for a host whose cache entry currently holds
-`cache` (non-empty): shuffle in place, compact in place, dial the returned slice.
-Returns (addresses dialled, contents of the cached array afterwards). -/
+`cache` (non-empty): copy the slice, shuffle the copy in place, compact the copy in place,
+dial the returned slice.  Returns (addresses dialled, contents of the cached array afterwards). -/
 def dialStep (fam : α → Family) (js : List Nat) (cache : List α) : List α × List α :=
-  let shuffled := shuffle js cache
+  let ips := cache                       -- `append([]string(nil), ips...)`: a fresh array with the same contents
+  let shuffled := shuffle js ips
   let r := firstOfEachInPlace fam shuffled
-  (r.1.take r.2, r.1)
+  (r.1.take r.2, cache)
 
 /-- A history of dials (one choice list per dial): all dialled address lists and the final array. -/
 def dialMany (fam : α → Family) : List (List Nat) → List α → List (List α) × List α
@@ -111,49 +113,55 @@ end generic
 
 /-! ### ConnectTo round-robin -/
 
-/-- Sequential `cm.n = (cm.n + 1) % len(cm.addrs); addr = cm.addrs[cm.n]`:
-new counter and the index used.  `len = 0` is an integer division by zero (panic). -/
+/-- One dial to a mapped address, run alone: `n := atomic.AddUint64(&cm.n, 1)` (wraps at 2^64),
+`addr = cm.addrs[n % uint64(len(cm.addrs))]`: new counter and the index used.
+`len = 0` is an integer division by zero (panic). -/
 def rrNext (k n : Nat) : Outcome (Nat × Nat) :=
-  if k = 0 then .panic else .ok ((n + 1) % k, (n + 1) % k)
+  if k = 0 then .panic else .ok ((n + 1) % two64, ((n + 1) % two64) % k)
 
-/-- indices used by `m` sequential dials starting from counter `n` -/
+/-- indices used by `m` sequential dials starting from counter value `n` -/
+def ctSeq (k : Nat) : Nat → Nat → List Nat
+  | 0, _ => []
+  | m+1, n => (((n + 1) % two64) % k) :: ctSeq k m ((n + 1) % two64)
+
+/-- the rotation `1, 2, …, k-1, 0, 1, …` as a reference: indices of `m` steps from position `n < k` -/
 def rrSeq (k : Nat) : Nat → Nat → List Nat
   | 0, _ => []
   | m+1, n => ((n + 1) % k) :: rrSeq k m ((n + 1) % k)
 
-/-- The same three memory operations as separate steps of concurrently dialling workers:
-pc 0 `t := cm.n`; pc 1 `cm.n = (t + 1) % k`; pc 2 `addr = cm.addrs[cm.n]` (reads `cm.n` again); pc 3 done. -/
-structure RRWorker where
+/-- Concurrently dialling workers.  The only access to shared memory is the atomic add:
+pc 0 → `n := atomic.AddUint64(&cm.n, 1)` (one step: counter advanced, ticket kept in the
+local `tmp`), pc 1 → `addr = cm.addrs[tmp % k]` (local; the dial completes and its ticket is
+appended to `done`).  A worker may dial any number of times. -/
+structure CTWorker where
   pc : Nat
   tmp : Nat
-  picked : Option Nat
+  done : List Nat       -- tickets of this worker's completed dials, in order
   deriving Repr, DecidableEq
 
-structure RRState where
+structure CTState where
   n : Nat
   k : Nat
-  ws : List RRWorker
+  ws : List CTWorker
   deriving Repr, DecidableEq
 
-def RRState.init (k workers : Nat) : RRState :=
-  { n := 0, k := k, ws := List.replicate workers { pc := 0, tmp := 0, picked := none } }
+def CTState.init (k workers : Nat) : CTState :=
+  { n := 0, k := k, ws := List.replicate workers { pc := 0, tmp := 0, done := [] } }
 
-/-- worker `w` performs its next memory operation -/
-def rrStep (s : RRState) (w : Nat) : Option RRState :=
+/-- worker `w` performs its next step (a schedule entry naming no worker does nothing) -/
+def ctStep (s : CTState) (w : Nat) : CTState :=
   match s.ws[w]? with
-  | none => none
+  | none => s
   | some wk =>
-    match wk.pc with
-    | 0 => some { s with ws := s.ws.set w { wk with pc := 1, tmp := s.n } }
-    | 1 => some { s with n := (wk.tmp + 1) % s.k, ws := s.ws.set w { wk with pc := 2 } }
-    | 2 => some { s with ws := s.ws.set w { wk with pc := 3, picked := some s.n } }
-    | _ => none
+    if wk.pc = 0 then
+      { s with n := (s.n + 1) % two64, ws := s.ws.set w { wk with pc := 1, tmp := (s.n + 1) % two64 } }
+    else
+      { s with ws := s.ws.set w { wk with pc := 0, done := wk.done ++ [wk.tmp] } }
 
-def rrRun : RRState → List Nat → Option RRState
-  | s, [] => some s
-  | s, w :: ws => match rrStep s w with
-    | some s' => rrRun s' ws
-    | none => none
+def ctRun (s : CTState) (sched : List Nat) : CTState := sched.foldl ctStep s
+
+/-- index of the replacement a ticket selects -/
+def CTState.indices (s : CTState) : List Nat := (s.ws.flatMap (·.done)).map (· % s.k)
 
 /-! ### custom resolver rotation -/
 
